@@ -45,7 +45,11 @@ def seeds_table():
 def refac_table():
     out = []
     for name, title in (("refactor_matrix.json", "round 1 (local rewrites)"), ("refactor2_matrix.json", "round 2 (other local rewrites)"), ("refactor3_matrix.json", "round 3 (medium-size structural refactorings)"), ("refactor4_matrix.json", "round 4 (control flow through return values, iterator pipelines, private state structs, tables)"), ("refactor5_matrix.json", "round 5 (clean-up commits mixing two or three rewrites in one function)")):
+        # the committed copy next to the refactorings (refactorings<N>/MATRIX.json), else the scratch copy of the last run
+        rdir = {"refactor_matrix.json": "refactorings", "refactor2_matrix.json": "refactorings2", "refactor3_matrix.json": "refactorings3", "refactor4_matrix.json": "refactorings4", "refactor5_matrix.json": "refactorings5"}[name]
         p = os.path.join(V, "work", name)
+        if not os.path.exists(p):
+            p = os.path.join(V, rdir, "MATRIX.json")
         if not os.path.exists(p):
             continue
         m = json.load(open(p))
